@@ -3,13 +3,14 @@
 and write a meta.json skeleton; `confirm` results are merged into meta.json by tools/seeded.py confirm --record."""
 import json, os, shutil, sys
 V = os.path.dirname(os.path.dirname(os.path.abspath(__file__)))
-for P in sys.argv[1:]:
+r2 = '--round2' in sys.argv
+for P in [a for a in sys.argv[1:] if not a.startswith('--')]:
     for x in 'ab':
-        src = '/tmp/wt/%s/_seed/%s' % (P, x)
+        src = '/tmp/wt/%s%s/_seed/%s' % ('r2_' if r2 else '', P, x)
         if not os.path.exists(os.path.join(src, 'patch.diff')) or os.path.getsize(os.path.join(src, 'patch.diff')) == 0:
             print('skip', src)
             continue
-        dst = os.path.join(V, 'seeded', P + x)
+        dst = os.path.join(V, 'seeded', P + ({'a': 'c', 'b': 'd'}[x] if r2 else x))
         if os.path.exists(dst):
             print('exists', dst)
             continue
@@ -19,7 +20,7 @@ for P in sys.argv[1:]:
             if os.path.isfile(p) and os.path.getsize(p) < 200000 and not f.endswith(('.o', '.log')) and f not in ('demo',):
                 shutil.copy(p, dst)
         # demo.sh default root: make it /repo-agnostic (argument required by our tooling)
-        meta = {'property': P, 'origin': 'independent sub-agent given only the property text and a private worktree (tools/seed_prompt.py)',
+        meta = {'property': P, 'origin': 'independent sub-agent given only the property text and a private worktree (tools/seed_prompt.py%s)' % (', round-2 brief' if r2 else ''),
                 'summary': '', 'needs_to_manifest': '', 'confirmed': None, 'expected': None}
         json.dump(meta, open(os.path.join(dst, 'meta.json'), 'w'), indent=1)
         print('imported', dst)
